@@ -311,3 +311,20 @@ if __name__ == '__main__':
         print(f'{n}: ' + ('holds' if r is None else 'FAILS - ' + r))
         bad += r is not None
     sys.exit(1 if bad else 0)
+
+
+def F22_repeated_card():
+    """C06 (fixed in 2d08528): the same card named twice in one dealing request."""
+    import warnings
+    from collections import Counter
+    from pokerkit import Automation, NoLimitTexasHoldem
+    s = NoLimitTexasHoldem.create_state(
+        (Automation.ANTE_POSTING, Automation.BET_COLLECTION, Automation.BLIND_OR_STRADDLE_POSTING),
+        True, 0, (1, 2), 2, (200, 200), 2)
+    with warnings.catch_warnings(record=True) as rec:
+        warnings.simplefilter('always')
+        s.deal_hole('AsAs')
+    cont = Counter(map(repr, list(s.deck_cards) + [c for h in s.hole_cards for c in h]))
+    dup = [c for c, k in cont.items() if k > 1]
+    return {'warned': bool(rec), 'duplicated': dup,
+            'defect_present': bool(dup) and not rec}
